@@ -83,7 +83,7 @@ def pinnedArgSkeleton : List (String × String) := [
   ("Error.in", "cffe1f43c8db"),
   ("Errors.in", "fbcdd807c73e"),
   ("Input.CoerceIn", "1ae44ebae6eb"),
-  ("Input.reflectSet", "7a298a1de3ad"),
+  ("Input.reflectSet", "d6bbe634d4a6"),
   ("Input.reflectSetKey", "b97163bbb51d"),
   ("List.CoerceIn", "342314fa8b37"),
   ("Root.addError", "c5f7e10ca815"),
@@ -93,7 +93,7 @@ def pinnedArgSkeleton : List (String × String) := [
   ("Root.replaceArgVars", "8e6170986780"),
   ("Root.resolveField", "d8dcc1486960"),
   ("Root.resolveReflect", "15757bc1bc70"),
-  ("checkReflectArgs", "2fe173b3f604")
+  ("checkReflectArgs", "bebacba2a1e6")
 ]
 
 theorem C04_arg_skeleton_pinned : Gen.argSkeleton = pinnedArgSkeleton := by decide
